@@ -371,11 +371,11 @@ func (s *Writer) prepareIntroducePersist(persists chan *persistIntroduction, new
 	case persists <- persist:
 	}
 
-	select {
-	case <-s.closeCh:
-		return segment.ErrClosed
-	case <-persist.applied:
-	}
+	// the introducer has accepted the request and always applies it, so wait
+	// for that unconditionally: giving up here when the index is being closed
+	// would let the deferred clean-up above close segments which the
+	// introducer is swapping into the root at this very moment
+	<-persist.applied
 
 	return nil
 }
